@@ -14,6 +14,8 @@ Observation points (no repo hook needed):
 
 Order of evaluation per delivery (fine before coarse, stop at the first):
   fine   vote-once-per-term            (from observed granted vote responses)
+  fine   leader-has-majority-votes     (a node turns leader of term T only with
+         a majority of granted term-T votes, own vote included)
   fine   match-index-le-matching-prefix (follower's reported match_index vs the
          true common prefix with the leader it reports to; leader's table)
   fine   future-own-command            (a resolved submit future names an index
@@ -21,9 +23,10 @@ Order of evaluation per delivery (fine before coarse, stop at the first):
   coarse election-safety, log-matching, leader-completeness,
          state-machine-safety (apply-order per node, apply-conflict across nodes)
 
-In `fine_raises=False` ("coarse") mode fine breaches are only remembered as
-*causes*; the run continues until a clause of the statement itself breaks and
-the signature carries the first cause seen.
+Fine breaches whose tag is in `tolerate` (the "coarse" scenario class tolerates
+exactly the three recorded defects) are only remembered as *causes*: the run
+continues, every other fine invariant and every clause of the statement is
+still judged, and a coarse signature carries the cause.
 """
 from __future__ import annotations
 
@@ -68,12 +71,13 @@ def _dense_rank(vals):
 
 
 class RaftOracle:
-    def __init__(self, nodes, sms, network, *, fine_raises: bool = True, on_react=None):
+    def __init__(self, nodes, sms, network, *, fine_raises: bool = True, tolerate=(), on_react=None):
         self.nodes = nodes
         self.n = len(nodes)
         self.sms = sms
         self.net = network
         self.fine_raises = fine_raises
+        self.tolerate = tolerate        # fine tags '<inv>:<detail>' that are only remembered as causes ('*' = all)
         self.on_react = on_react or (lambda kind, i: None)
         self.by_id = {id(nd): i for i, nd in enumerate(nodes)}
         self.idx = {nd.name: i for i, nd in enumerate(nodes)}
@@ -92,6 +96,7 @@ class RaftOracle:
         # events are FIFO, so the k-th response of a node seen at the network answers the k-th request it handled
         self.ae_queue = [collections.deque() for _ in range(n)]   # (leader name, term, prev+len(entries), last_index after handling)
         self.rv_queue = [collections.deque() for _ in range(n)]   # (seq at handling, seq of last same-term AE handled before it)
+        self.grants: dict = {}           # (term, candidate name) -> set(voter idx) of granted responses seen at the network
         self.leader_of: dict = {}        # term -> node idx
         self.cands_of: dict = {}         # term -> set(node idx)
         self.double_vote: dict = {}      # term -> detail
@@ -113,9 +118,9 @@ class RaftOracle:
     # ------------------------------------------------------------------ verdict helpers
     def _fine(self, inv: str, mech: str, detail: str, msg: str):
         sig = f"{P}/{inv}/RaftNode/{mech}/{detail}"
-        if self.fine_raises:
-            raise Violation(sig, msg)
         tag = f"{inv}:{detail}"
+        if self.fine_raises and not (self.tolerate == "*" or tag in self.tolerate):
+            raise Violation(sig, msg)
         if tag not in self.causes:
             self.causes.append(tag)
         self.probes["cause." + tag] += 1
@@ -193,6 +198,7 @@ class RaftOracle:
                 return
             t = md.get("term")
             cand = md.get("destination")
+            self.grants.setdefault((t, cand), set()).add(voter)
             key = (voter, t)
             prev = self.votes.get(key)
             if prev is None:
@@ -344,6 +350,12 @@ class RaftOracle:
         if prev_role == "L" and role != "L":
             self.probes["leader_stepped_down"] += 1
         if role == "L":
+            if prev_role != "L" or prev_term != term:
+                got = 1 + len(self.grants.get((term, self.nodes[i].name), set()) - {i})
+                if got < self.quorum:
+                    self._fine("leader-has-majority-votes", "RaftVoteResponse", "fewer-grants-than-quorum",
+                               f"{self.nodes[i].name} became leader of term {term} with {got} term-{term} vote(s) granted to it "
+                               f"(own vote included); quorum is {self.quorum}")
             cur = self.leader_of.get(term)
             if cur is None:
                 self.leader_of[term] = i
